@@ -117,8 +117,19 @@ def model_binary():
     return os.path.join(LEAN, ".lake", "build", "bin", "cicada_model")
 
 
+def _rewrite(path, pattern, repl):
+    s = open(path).read()
+    t = re.sub(pattern, repl, s)
+    if t != s:
+        open(path, "w").write(t)
+
+
 def build_harness():
     h = os.path.join(VERIF, "harness")
+    # the harness crate depends on the repository by path and builds into this framework's .build: both follow
+    # CICADA_REPO / the location of this checkout (so a snapshot of the framework can run beside the original)
+    _rewrite(os.path.join(h, "Cargo.toml"), r'cicada = \{ path = "[^"]*" \}', 'cicada = { path = "%s" }' % REPO)
+    _rewrite(os.path.join(h, ".cargo", "config.toml"), r'target-dir = "[^"]*"', 'target-dir = "%s"' % os.path.join(BUILD, "harness-target"))
     shutil.copyfile(os.path.join(REPO, "Cargo.lock"), os.path.join(h, "Cargo.lock"))
     rc, out = run(["cargo", "build", "--offline"], cwd=h, timeout=3000)
     if rc != 0:
